@@ -106,6 +106,17 @@ def plan(tier):
                             opts['depth'] = '30'
                             opts['start'] = 'epoch' if (len(v) % 2) else '2024-03-01T00:00:00Z'
                         items.append({'stream': stream, 'mode': mode, 'opts': opts})
+    # histories: every ordered pair of option vectors on the small encrypted stream - the answer to a request does not
+    # depend on what the process served before
+    hv = [v for v in vecs if len(v) <= 1]
+    if tier == 'quick':
+        hv = [v for v in hv if v.get('drm') in (None, 'all', 'playready', 'clearkey-moov')]
+    for a in hv:
+        for b in hv:
+            if a is b:
+                continue
+            items.append({'stream': 'synenc', 'mode': 'vod', 'opts': {k: x for k, x in b.items() if x is not None},
+                          'before': [{k: x for k, x in a.items() if x is not None}]})
     return items
 
 
@@ -214,6 +225,14 @@ def execute(item):
     stream, mode, opts = item['stream'], item['mode'], item['opts']
     url = crawl.manifest_url(mode, stream, 'hand_made', opts)
     rec = {'stream': stream, 'mode': mode, 'opts': opts}
+    if item.get('before'):
+        # a history: the sessions of other option vectors come first, in this process; what is judged is the last one
+        rec['before'] = item['before']
+        for prev in item['before']:
+            crawl.crawl(w, core.Acc(), crawl.manifest_url(mode, stream, 'hand_made', prev), NOW, policy='all',
+                        on_segment=lambda *a: None)
+            acc.count('evaluations')
+        acc.state(('history', stream, mode, tuple(tuple(sorted(p.items())) for p in item['before']), tuple(sorted(opts.items()))))
 
     def on_segment(doc, rep, seg, pos, path, sr):
         if sr.status != 200:
@@ -237,6 +256,6 @@ def run(ctx):
 
 
 def replay(record):
-    item = {'stream': record['stream'], 'mode': record['mode'], 'opts': record['opts']}
+    item = {'stream': record['stream'], 'mode': record['mode'], 'opts': record['opts'], 'before': record.get('before')}
     acc = execute(item)
     return [(s, v[0]['what']) for s, v in acc.viol.items()]
